@@ -15,7 +15,7 @@ Forest(n, p) == [items |-> n, roots |-> SortedSeq({i \in 1..n : p[i] = 0}),
                  body |-> [i \in 1..n |-> SortedSeq({c \in 1..n : p[c] = i})]]
 Shapes == {Chain(n) : n \in 0..MaxChain} \cup UNION {{Forest(n, p) : p \in Parents(n)} : n \in 1..MaxNodes}
 Scn == {[items |-> s.items, roots |-> s.roots, body |-> s.body, maxd |-> d, stopped |-> st] :
-          s \in Shapes, d \in 0..MaxDepth, st \in {<<>>, <<2>>}}
+          s \in Shapes, d \in 0..MaxDepth, st \in {<<>>, <<1>>, <<2>>}}
 Export ==
   LET rec == [scn |-> scn, ran |-> ranSeq']
   IN (Finished' /\ ~Finished) =>
